@@ -394,6 +394,11 @@ def _leeds(ctx, pkg):
         z = simp(inc[0].loops[0].iter)
         if len(z[2]) == 2:
             labels, widths = lit(z[2][0]), lit(z[2][1])
+    if not inc or labels is None or widths is None:
+        # not the cursor idiom (one loop over zip(labels, widths) advancing a column cursor): another way of cutting the record --
+        # prefix sums, slices by table -- is not decided by this rule
+        ctx.unrec("R4", "Leeds:layout", (file, fn.lineno), "the Leeds record is not cut by the reviewed cursor idiom (for label, width in zip(..): clip = line[cursor:cursor+width]; cursor += width)")
+        return
     ctx.check(labels == LEEDS_LABELS, "R3", "Leeds:labels", (file, fn.lineno), "the nine fields of a Leeds record, in file order", expected=str(LEEDS_LABELS), found=str(labels))
     ctx.check(widths == LEEDS_WIDTHS and sum(widths or []) == 125, "R4", "Leeds:widths", (file, fn.lineno),
               "column widths 5,30,50,8,9,10,5,5,3 (125 columns)", expected=str(LEEDS_WIDTHS), found=str(widths))
